@@ -797,7 +797,8 @@ class CrashRunner {
           if (P.torn && trace[t - 1].kind == IO_WRITE) {
             const FsInode &in = m.inodes[m.last_written_inode];
             size_t wl = in.written - in.last_write_start;
-            size_t cuts[3] = {1 + (size_t)(splitmix(rng) % (wl > 1 ? wl - 1 : 1)), wl > 7 ? (size_t)7 : 0, wl > 8 ? wl - 1 : 0};
+            // inside the 7-byte record header, exactly after it, somewhere in the payload, one byte short of the end
+            size_t cuts[4] = {1 + (size_t)(splitmix(rng) % 6), wl > 7 ? (size_t)7 : 0, 1 + (size_t)(splitmix(rng) % (wl > 1 ? wl - 1 : 1)), wl > 8 ? wl - 1 : 0};
             for (size_t cu : cuts) {
               FsImage ti;
               if (cu && m.torn(cu, &ti)) check_image(m, ti, t, opidx);
